@@ -316,8 +316,10 @@ Example C10_ex_last_write_wins_hyps :
   (forall c, In c q -> touches c (B "h") (B "f") = false /\ before_deadline d2 (B "h") (c_now c)) /\
   fst (hstep (hrun d2 q) (cmd 9 [B "HGET"; B "h"; B "f"])) = RBulk (B "v").
 Proof.
-  vm_compute. split; [reflexivity|]. split; [|reflexivity].
-  intros c [<-|[<-|[<-|[<-|[<-|[]]]]]]; split; exact I || reflexivity.
+  cbv zeta. match goal with |- context [hstep ?a ?b] => destruct (hstep a b) as [r d2] eqn:E end.
+  vm_compute in E. inversion E; subst r d2; clear E.
+  split; [reflexivity|]. split; [|vm_compute; reflexivity].
+  intros c [<-|[<-|[<-|[<-|[<-|[]]]]]]; (split; [vm_compute; reflexivity|vm_compute; exact I]).
 Qed.
 
 (* HDEL of the last field removes the key *)
